@@ -87,7 +87,7 @@ class Prop(BaseProp):
     def run_case(self, idx, rng):
         res = CaseResult()
         b = HBuilder(rng, p_doc=0.7, max_depth=2, max_items=6, compound_generic=False,
-                     kinds=["set", "set", "set", "option", "option", "function", "block", "cpp_class", "plain", "macro"])
+                     kinds=["set", "set", "set", "option", "option", "function", "block", "cpp_class", "plain", "macro"], p_clone=0.1)
         b.forms = []
         mod = b.module()
         text = render(mod, Layout(rng, comments=0.1, wild=0.2, case="random"))
@@ -115,12 +115,18 @@ class Prop(BaseProp):
                     res.violate("undocumented-set-has-entry", it.gt["name"], wit)
                 else:
                     res.count("undocumented_sets_absent")
+        want_count = {}
+        for e in tgt:
+            want_count[e.name] = want_count.get(e.name, 0) + 1
+        seen_idx = {}
         for e in tgt:
             ns = nodes.get(e.name, [])
-            if len(ns) != 1:
-                res.violate(f"entry-count:{e.kind}", f"{e.name}: {len(ns)} data entries", wit)
+            if len(ns) != want_count[e.name]:
+                res.violate(f"entry-count:{e.kind}", f"{e.name}: {len(ns)} data entries, the command occurs {want_count[e.name]}x", wit)
                 continue
-            n = ns[0]
+            i_ = seen_idx.get(e.name, 0)
+            seen_idx[e.name] = i_ + 1
+            n = ns[i_]
             kind = rstscan.kind_of(n)
             if kind != e.kind:
                 res.violate(f"kind:{e.kind}->{kind}", e.name, wit)
